@@ -2,7 +2,7 @@
    Statements only; every proof is [exact Lemmas.<name>]. *)
 From Coq Require Import ZArith List Bool.
 Import ListNotations.
-From GV Require Import Common.Wire gen.Gen_findcid C17.Model C17.Lemmas C17.GenLink.
+From GV Require Import Common.Wire gen.Gen_findcid gen.Gen_datamut C17.Model C17.Lemmas C17.GenLink C17.GenEquiv C17.GenTransport.
 Open Scope Z_scope.
 
 (* After every sequence of modelled calls of the mutation API (valid and invalid arguments, any hub mode) that does not
@@ -104,3 +104,74 @@ Print Assumptions find_in_is_generated.
 Theorem find_order_is_precedence : find_order = [0; 1; 2; 3]%Z.
 Proof. exact GenLink.find_order_is_precedence. Qed.
 Print Assumptions find_order_is_precedence.
+
+(* ---- tie of the mutation API to the source by translation.  Gen_datamut.remove_component (with
+   _removed_derived_that_depend_on), reorder_components, update_id and update_components are REGENERATED from
+   glue/core/data.py on every run (tools/gen/gen_datamut.py), statement by statement, over an abstract object state;
+   [env17] (Model.v) instantiates that state with the model's.  [step_g] / [run_g] take these calls from the generated
+   code. ---- *)
+
+(* the generated removal cascade (collect-then-remove, recursion with explicit fuel, hub guard, the two broadcasts in their
+   order) computes the model's cascade, on every state with distinct ids and with any fuel *)
+Theorem gen_remove_is_model : forall n c s, NoDup (keys (comps s)) ->
+  Gen_datamut.remove_component env17 n c s = Model.remove_fuel n c s.
+Proof. exact GenEquiv.gen_remove_is_model. Qed.
+Print Assumptions gen_remove_is_model.
+
+(* the generated reorder_components (both validity checks, the search for a difference, the rebuilt table, the message) *)
+Theorem gen_reorder_is_model : forall (l : list Z) s, NoDup (keys (comps s)) -> g_reorder l s = reorder l s.
+Proof. exact GenEquiv.gen_reorder_is_model. Qed.
+Print Assumptions gen_reorder_is_model.
+
+(* the generated update_id (order-preserving replacement of the key, of the pixel / world id, re-targeting of the links, message) *)
+Theorem gen_update_id_is_model : forall (o n : Z) s, data_inv s -> g_update_id o n s = Model.update_id o n s.
+Proof. exact GenEquiv.gen_update_id_is_model. Qed.
+Print Assumptions gen_update_id_is_model.
+
+(* the generated update_components (loop that stops at the first error, cache clearing, message), on the modelled domain *)
+Theorem gen_update_comps_is_model : forall l s, snd (update_comps l s) <> RUnmodelled -> g_update_comps l s = update_comps l s.
+Proof. exact GenEquiv.gen_update_comps_is_model. Qed.
+Print Assumptions gen_update_comps_is_model.
+
+(* each generated mutator preserves the structure invariant *)
+Theorem gen_mutators_preserve_invariant : forall s, data_inv s ->
+  (forall c, guard_op s (ORemove c) = true ->
+     data_inv (Gen_datamut.remove_component env17 (length (comps s)) c s)) /\
+  (forall l, data_inv (fst (Gen_datamut.reorder_components env17 l s))) /\
+  (forall o n, guard_op s (OUpdateId o n) = true -> negb (o =? n) && used o s && used n s = false ->
+     data_inv (Gen_datamut.update_id env17 o n s)) /\
+  (forall l, snd (update_comps l s) <> RUnmodelled -> data_inv (fst (Gen_datamut.update_components env17 l s))).
+Proof. exact GenTransport.gen_mutators_preserve_invariant. Qed.
+Print Assumptions gen_mutators_preserve_invariant.
+
+(* data_inv_reachable_partial, about runs through the generated code *)
+Theorem gen_data_inv_reachable_partial : forall m c pool dl ops,
+  guarded ops (init m c pool dl) = true ->
+  structurally_consistent (run_g ops (init m c pool dl)).
+Proof. exact GenTransport.gen_data_inv_reachable_partial. Qed.
+Print Assumptions gen_data_inv_reachable_partial.
+
+(* announce_exact, about a call through the generated code (remove_component with its cascade, reorder_components,
+   update_components: exactly the ids that left are announced, once each, one ComponentsChangedMessage per removal, the
+   documented reorder / numerical message and nothing else; nothing without a hub or on a failed call) *)
+Theorem gen_announce_exact : forall o s, data_inv s -> guard_op s o = true -> special o = false ->
+  let s' := fst (step_g o s) in
+  (hub s = NoHub -> log s' = []) /\
+  (hub s <> NoHub ->
+     let out := filter nonext (log s') in
+     NoDup (adds out) /\ NoDup (removes out) /\
+     (forall x, In x (adds out) <-> In x (K s') /\ ~ In x (K s)) /\
+     (forall x, In x (removes out) <-> In x (K s) /\ ~ In x (K s')) /\
+     nchanged out = (length (adds out) + length (removes out))%nat /\
+     others out = expected_others o s (snd (step_g o s))).
+Proof. exact GenTransport.gen_announce_exact. Qed.
+Print Assumptions gen_announce_exact.
+
+(* announce_update_id, about the generated update_id *)
+Theorem gen_announce_update_id : forall o n s, data_inv s ->
+  let s' := fst (step_g (OUpdateId o n) s) in
+  (hub s = NoHub -> log s' = []) /\
+  (hub s <> NoHub -> filter nonext (log s') =
+     if negb (o =? n) && negb (used o s && used n s) && used o s then [MReplaced o n] else []).
+Proof. exact GenTransport.gen_announce_update_id. Qed.
+Print Assumptions gen_announce_update_id.
